@@ -198,6 +198,18 @@ def _case(arg):
             a = np.array(back_arg if meth in takes_image else arg_pts, dtype=float)
             ref = refs[meth]
             sc = scales[meth]
+            Xm = X
+            # image points that are no longer interior after rounding to float64 (r == rmin: the pre-image is the end point
+            # itself, where the map's slope vanishes and the inverse-type methods refuse with ZeroDivisionError) are not part
+            # of "the interior of the domain": they are left out of the array call and counted as inadmissible.  (False
+            # alarm for seeds >= 6, where the jitter moves x = -0.999 to -0.9995 and (1 + x)^5 underflows against rmin.)
+            valid = np.isfinite(ref)
+            if not np.all(valid):
+                res.count(int(np.sum(~valid)))
+                res.inadm(int(np.sum(~valid)))
+                a, ref, sc, Xm = a[valid], ref[valid], np.asarray(sc)[valid], X[valid]
+                if len(a) == 0:
+                    continue
             try:
                 keep = a.copy()
                 got = np.asarray(call(meth, a), dtype=float)
@@ -218,7 +230,7 @@ def _case(arg):
                     res.inadm()
                     continue
                 res.nontrivial()
-                near = (lo, hi) == (-1.0, 1.0) and abs(X[i]) > NEAR_END
+                near = (lo, hi) == (-1.0, 1.0) and abs(Xm[i]) > NEAR_END
                 if not _close(got[i], ref[i], sc[i], RTOL_NEAR if near else RTOL):
                     rel = abs(got[i] - ref[i]) / (abs(ref[i]) + 1e-300)
                     bucket = "tiny" if rel < 1e-6 else ("small" if rel < 1e-2 else "gross")
@@ -273,12 +285,15 @@ def _case(arg):
             fresh = build(name, p)
             if inverse:
                 fresh = InverseRTransform(build(name, p))
-            second = {m: np.array(back_arg if m in takes_image else arg_pts, dtype=float)[::-1].copy() for m in all_m}
+            ok_all = np.ones(len(X), dtype=bool)
+            for m in all_m:
+                ok_all &= np.isfinite(refs[m])        # (interior image points only, see above)
+            second = {m: np.array(back_arg if m in takes_image else arg_pts, dtype=float)[ok_all][::-1].copy() for m in all_m}
             with np.errstate(all="ignore"):
                 want2 = {m: np.asarray(getattr(fresh, m)(second[m].copy()), dtype=float) for m in all_m}
             for m1, m2 in itertools.product(all_m, repeat=2):
                 res.count()
-                buf = np.array(back_arg if m1 in takes_image else arg_pts, dtype=float)
+                buf = np.array(back_arg if m1 in takes_image else arg_pts, dtype=float)[ok_all]
                 call(m1, buf)
                 buf[:] = second[m2]
                 got2 = np.asarray(call(m2, buf), dtype=float)
